@@ -10,9 +10,11 @@ open J5V.Go J5V.Json
 /-- **encoding a representable message of a flat environment succeeds** -/
 theorem encode_ok (c : Cfg) (hs : c.env.flat = true) (L : OracleLaws c.O)
     (hC : c.env.noAny = true ∨ ChunkLaws c.O) (root : String) (m : Fields)
-    (hok : valOk c.env c.O (.object root) (.msg m) = true ∨ valOk c.env c.O (.oneof root) (.msg m) = true) :
+    (hok : valOk c.env c.O (.object root) (.msg m) = true ∨ valOk c.env c.O (.oneof root) (.msg m) = true)
+    (hM : ∃ mode, modeOkF mode (6 * (depthFields m + 1) + 9) 0 m = true) :
     ∃ bs, encodeBytes c.env c.O root (.msg m) = .ok bs := by
-  obtain ⟨bs, hbs, _⟩ := roundtrip_bytes { c with protoToAny := false } hs L hC (Or.inl rfl) root m hok
+  obtain ⟨mode, hM⟩ := hM
+  obtain ⟨bs, hbs, _⟩ := roundtrip_bytes { c with protoToAny := mode, anyDepth := 0 } hs L hC root m hok hM
   exact ⟨bs, hbs⟩
 
 end J5V.Codec
